@@ -104,7 +104,32 @@ def _regressor(name, seed=0):
     raise ValueError(name)
 
 
+def via_set_params(est):
+    """The same configuration reached differently: constructed with OTHER values of its primitive
+    parameters, which are then set to the wanted ones through set_params (what a parameter
+    search does on a clone).  Falls back to ``est`` when the constructor refuses the other values."""
+    p = est.get_params(deep=False)
+    alt = {}
+    for k, v in p.items():
+        if isinstance(v, bool):
+            alt[k] = not v
+        elif isinstance(v, (int, np.integer)):
+            alt[k] = int(v) + 1
+        elif isinstance(v, float):
+            alt[k] = v * 0.5 + 0.25
+    if not alt:
+        return est
+    try:
+        other = type(est)(**dict(p, **alt))
+        other.set_params(**{k: p[k] for k in alt})
+    except Exception:  # noqa: BLE001
+        return est
+    return other
+
+
 def build_forecaster(spec):
+    if spec.get("_vsp"):
+        return via_set_params(build_forecaster({k: v for k, v in spec.items() if k != "_vsp"}))
     k = spec["kind"]
     if k == "naive":
         from sktime.forecasting.naive import NaiveForecaster
@@ -401,6 +426,12 @@ def composite_specs(inner, allow_grid=True):
 
 
 def forecaster_specs(max_depth=2, cheap=False):
+    # one in four specs is built via set_params on an instance constructed with other values
+    return _forecaster_specs(max_depth, cheap).flatmap(
+        lambda sp: st.sampled_from([False, False, False, True]).map(lambda f: dict(sp, _vsp=True) if f else sp))
+
+
+def _forecaster_specs(max_depth=2, cheap=False):
     base = plain_specs(cheap=cheap)
     if max_depth <= 0:
         return base
